@@ -666,7 +666,7 @@ pub fn c03_dist_base_n3() {
 }
 
 // Inductive step of DijkstraDist::next from ANY invariant state (3 vertices, <= 3 heap entries, weights < 2^62): covers histories of any length.
-// @verif prop=C03 tier=quick fl=f2 feat=cap4 role=inductive/dist-step t=3000 mem=20
+// @verif prop=C03 tier=thorough fl=f2 feat=cap4 role=inductive/dist-step t=3600 mem=24
 #[cfg_attr(kani, kani::proof)]
 #[cfg_attr(kani, kani::unwind(6))]
 pub fn c03_dist_step_n3_h3() {
@@ -690,7 +690,7 @@ pub fn c03_plain_step_n3_h3() {
 }
 
 // distances() wrapper, whole run, 2 vertices.
-// @verif prop=C03 tier=quick fl=f2 role=distances/whole-run-n2 t=1200 mem=14
+// @verif prop=C03 tier=thorough fl=f2 role=distances/whole-run-n2 t=3600 mem=30
 #[cfg_attr(kani, kani::proof)]
 #[cfg_attr(kani, kani::unwind(5))]
 pub fn c03_distances_wrapper_n2() {
